@@ -139,3 +139,6 @@ Definition guard_F4 (p : string) : bool := negb (valid_encoded p).
 
 (** C08-F5: a '$' in the decoded value (it may complete the place-holder) *)
 Definition guard_F5 (v : string) : bool := mem_ascii "$"%char (unescape_or_empty v).
+
+(** C08-F6: an X-Forwarded-Uri whose path does not parse (malformed escape) *)
+Definition guard_F6 (p : string) : bool := negb (wellformed p).
